@@ -58,7 +58,7 @@ func runCodecx(ctx *core.Ctx, tier string) {
 	c := &codecRun{ctx: ctx, n: ctx.Counter("comparisons"), tier: tier}
 	ctx.Rep.Rule = "(1) texts: every value of the V3 family in 3-4 spellings plus escape/number specials: Unmarshal->Marshal reads back (independent reader) as the same value with number literals and code points intact; UnmarshalWithKeys / UnmarshalValidWithKeys report member names in document order; Compact / Indent / HTMLEscape equal independent implementations byte for byte; MarshalEscaped(false) differs from Marshal only in the five escapes - each call made on a fresh codec state (pools emptied) and again on the recycled one. " +
 		"(2) Go values: run-time built types (bool, ints, float64, string, []byte, any, pointers, slices, arrays, maps with string/int keys, structs via reflect.StructOf with tags name / omitempty / string / '-' / '-,' and embedding; depth 2, thorough 3) x per-kind value domains (zero, extreme, NaN/Inf, HTML and invalid-UTF-8 strings, nil vs empty): Marshal, MarshalIndent, MarshalEscaped(false) equal encoding/json's bytes and error-ness (U+0008/U+000C spelling normalised); every text of a shape-matching and mismatching set is decoded into zero and into pre-filled targets and must give encoding/json's value (UseNumber; Number types normalised) and error-ness. " +
-		"(3) streams: Decoder scripts over {Decode, Token, More, Buffered, InputOffset} of length <= 3 (thorough 4) on 8 streams, under EVERY split of the stream into <= 3 reads, compared step by step with encoding/json; Encoder with every SetIndent x SetEscapeHTML setting. states = distinct texts + (type,value) pairs + (stream,split) pairs; transitions = comparisons"
+		"(3) streams: Decoder scripts over {Decode(any), Decode(int), Token, More, Buffered, InputOffset} of length <= 3 (thorough 4) on 9 streams, under EVERY split of the stream into <= 3 reads, compared step by step with encoding/json; Encoder with every SetIndent x SetEscapeHTML setting. states = distinct texts + (type,value) pairs + (stream,split) pairs; transitions = comparisons"
 	ctx.Rep.Assume = append(ctx.Rep.Assume, "relative to the installed standard library (go1.23); field names are ASCII; RedirectMarshaler/TrustMarshaler are fork-only and judged through the library-level checks (C05, C15)")
 	ctx.Phase("texts", func() { c.partTexts() })
 	ctx.Phase("values", func() { c.partValues() })
@@ -451,7 +451,7 @@ func structsOver(ts []typeSpec, max int) []typeSpec {
 }
 
 var decodeTexts = []string{`null`, `true`, `1`, `-1.5`, `1e3`, `300`, `1.0`, `"s"`, `"1"`, `"aGk="`, `""`, `[]`, `[1,2,3]`, `[null]`, `["a",null]`, `{}`,
-	`{"x":1,"A":2,"a":3,"B":null}`, `{"x":"1","A":"2"}`, `{"A":{"A":"in"},"c":true}`, `{"10":1,"-2":null,"b<":2}`, `{"a":[1],"b":{"c":null}}`, `[[1],[2,3]]`, `12345678901234567890`}
+	`{"x":1,"A":2,"a":3,"B":null}`, `{"x":"1","A":"2"}`, `{"A":{"A":"in"},"c":true}`, `{"10":1,"-2":null,"b<":2}`, `{"a":[1],"b":{"c":null}}`, `[[1],[2,3]]`, `12345678901234567890`, `{"a":1,"b":2,"c":"y","z":true,"A2":"t"}`, `{"b":"wrong type","a":5}`}
 
 // norm turns a decoded Go value into a comparable text, unifying the two Number types.
 func norm(v reflect.Value, sb *strings.Builder, depth int) {
@@ -586,13 +586,50 @@ func deepCopyValue(v reflect.Value) reflect.Value {
 			out.Set(m)
 		}
 	case reflect.Struct:
+		out.Set(v) // value copy (covers unexported embedded structs)
 		for i := 0; i < v.NumField(); i++ {
-			out.Field(i).Set(deepCopyValue(v.Field(i)))
+			if out.Field(i).CanSet() {
+				out.Field(i).Set(deepCopyValue(v.Field(i)))
+			}
 		}
 	default:
 		out.Set(v)
 	}
 	return out
+}
+
+// embedding three levels deep, by value and by pointer (field index paths of length 4)
+type embLeaf struct {
+	A int    `json:"a"`
+	B int    `json:"b"`
+	C string `json:"c,omitempty"`
+}
+type embL2 struct{ embLeaf }
+type embL1 struct{ embL2 }
+type embTop struct {
+	embL1
+	Z bool `json:"z"`
+}
+type EmbLeafP struct {
+	A int `json:"a"`
+	B int `json:"b"`
+}
+type EmbL2P struct{ *EmbLeafP }
+type EmbL1P struct{ *EmbL2P }
+type EmbTopP struct {
+	*EmbL1P
+	A string `json:"A2"`
+}
+
+func embeddedTypes() []typeSpec {
+	v1 := embTop{Z: true}
+	v1.A, v1.B, v1.C = 11, 22, "x"
+	p1 := EmbTopP{EmbL1P: &EmbL1P{&EmbL2P{&EmbLeafP{A: 11, B: 22}}}, A: "top"}
+	return []typeSpec{
+		{reflect.TypeOf(embTop{}), mk(embTop{}, v1)},
+		{reflect.TypeOf(EmbTopP{}), mk(EmbTopP{}, p1)},
+		{reflect.TypeOf(embL1{}), mk(embL1{}, v1.embL1)},
+	}
 }
 
 func (c *codecRun) typeList() []typeSpec {
@@ -611,6 +648,7 @@ func (c *codecRun) typeList() []typeSpec {
 	sel = append(sel, st[:min(len(st), 12)]...)
 	d2 := derive(sel)
 	all = append(all, d2...)
+	all = append(all, embeddedTypes()...)
 	if c.tier == "thorough" {
 		all = append(all, structsOver(d1, len(d1))...)
 		d3sel := []typeSpec{}
@@ -814,6 +852,7 @@ var streams = []string{
 	"[[],{}]\nnull",
 	"{\"k\":\"é<\"}\n{\"k\":2}",
 	`{"a":{"b":"c"},"d":[1e2,"x"]}`,
+	`[1, "two", 3] "tail"`,
 }
 
 // splitReader answers Read with the next chunk of a fixed split.
@@ -874,7 +913,7 @@ func (c *codecRun) partStreams() {
 	if c.tier == "thorough" {
 		maxOps, maxCuts = 4, 2
 	}
-	ops := []string{"Decode", "Token", "More", "Buffered", "InputOffset"}
+	ops := []string{"Decode", "Token", "More", "Buffered", "InputOffset", "DecodeInt"}
 	var scripts [][]int
 	var rec func(cur []int)
 	rec = func(cur []int) {
@@ -921,6 +960,10 @@ func (c *codecRun) partStreams() {
 								var v interface{}
 								err := fd.Decode(&v)
 								a = fmt.Sprintf("%v|%s", err != nil, normText(reflect.ValueOf(&v).Elem()))
+							case "DecodeInt":
+								var v int
+								err := fd.Decode(&v)
+								a = fmt.Sprintf("%v|%d", err != nil, v)
 							case "Token":
 								a = tokText(fd.Token())
 							case "More":
@@ -938,6 +981,10 @@ func (c *codecRun) partStreams() {
 								var v interface{}
 								err := sd.Decode(&v)
 								b = fmt.Sprintf("%v|%s", err != nil, normText(reflect.ValueOf(&v).Elem()))
+							case "DecodeInt":
+								var v int
+								err := sd.Decode(&v)
+								b = fmt.Sprintf("%v|%d", err != nil, v)
 							case "Token":
 								b = tokText(sd.Token())
 							case "More":
